@@ -10,6 +10,7 @@ From SV Require Import Fmt.VmfText Fmt.VmfTextProofs Fmt.VmfBlocks Fmt.VmfBlocks
 From SV Require Import Fmt.VmfNum Fmt.VmfNumProofs Fmt.VmfGuard Fmt.VmfGuardProofs.
 From SV Require Import Fmt.VmfLite Fmt.VmfLiteProofs Fmt.VmfFlags Fmt.VmfFlagsProofs Fmt.VmfTok Fmt.VmfTokProofs Fmt.VmfPlane Fmt.VmfPlaneProofs.
 From SV Require Import Fmt.VmfIds Fmt.VmfIdsProofs Fmt.VmfTree Fmt.VmfTreeProofs Fmt.VmfSets Fmt.VmfSetsProofs Fmt.VmfViewport Fmt.VmfViewportProofs Fmt.VmfWholeProofs.
+From SV Require Import Fmt.VmfAlias Fmt.VmfAliasProofs.
 From SV Require Import Gen.VmfTemplates_gen Gen.VmfKeys_gen Gen.VmfDispSizes_gen Gen.VmfOrder_gen Gen.VmfProg_gen Gen.VmfFieldsCfg_gen Gen.VmfNumFmt_gen Gen.VmfLite_gen Gen.VmfFlags_gen.
 Import ListNotations.
 
@@ -144,6 +145,12 @@ Theorem c06_one_digit_row_reader_refuted :
   rows_recognised one_digit_rowreader ROW 17 = false /\ read_row one_digit_rowreader (row_key ROW 10) = None
   /\ rows_recognised one_digit_rowreader ROW 9 = true.
 Proof. exact one_digit_rowreader_refuted. Qed.
+
+(** Round 5 (seeded/c06_8): a reader that looks the key up in a table precomputed for 2**4 rows does not know row16. *)
+Theorem c06_table_of_16_row_names_refuted :
+  rows_recognised table16_rowreader ROW 17 = false /\ read_row table16_rowreader (row_key ROW 16) = None
+  /\ rows_recognised table16_rowreader ROW 16 = true /\ rows_recognised table16_rowreader ROW 9 = true.
+Proof. exact table16_rowreader_refuted. Qed.
 
 (** Output values: as_keyvalue joins target, input, parameter, delay, times with ESC or with commas; parse chooses
     the separator by the presence of ESC, demands five fields and re-joins extra commas into the parameter.  Exact
@@ -430,3 +437,71 @@ Theorem c06_property :
   /\ (forall t1 r, tiers = t1 :: r -> forall a u v, in_tier t1 u = false -> in_tier t1 v = false ->
         vp_read tiers vinv (vp_write vtbl a u v) = Some (a, u, v)).
 Proof. exact whole_property. Qed.
+
+(** Round 5.  Histories: content added to a map AFTER it was made (parse, then add_brush, then export).  The public adders work on
+    [VMF.brushes], the writer reads [VMF.spawn.solids]: the two must be one object.  Gen/VmfAlias_gen.v holds, for every function
+    that hands out a map and every alias pair the constructor establishes, the reference expressions the two access paths hold
+    at every return (symbolic execution over object identities).  [alias_same] is a sound and complete decision procedure. *)
+Theorem c06_alias_check_sound : forall a b, alias_same a b = true -> forall w, reval w a = reval w b.
+Proof. exact alias_same_sound. Qed.
+
+Theorem c06_alias_check_complete : forall a b, alias_same a b = false -> exists w, reval w a <> reval w b.
+Proof. exact alias_same_complete. Qed.
+
+(** What is appended through the first path is read through the second. *)
+Theorem c06_alias_added_content_is_written : forall a b, alias_same a b = true ->
+  forall (X : Type) w (h : heap X) x, add_then_read w a b h x = (h (reval w b) ++ [x])%list.
+Proof. exact alias_add_then_read. Qed.
+
+(** The generated table: every maker, every pair. *)
+Theorem c06_alias_table_meaning : forall fns pairs t, alias_table_ok fns pairs t = true ->
+  forall fn p, In fn fns -> In p pairs ->
+  exists row, In row t /\ ar_fn row = fn /\ ar_left row = fst p /\ ar_right row = snd p /\
+              (forall w, reval w (ar_l row) = reval w (ar_r row)) /\
+              (forall (X : Type) w (h : heap X) x, add_then_read w (ar_l row) (ar_r row) h x = (h (reval w (ar_r row)) ++ [x])%list).
+Proof. exact alias_table_meaning. Qed.
+
+(** [brushes = spawn.solids or []] (seeded/c06_7): on a map without world brushes the adders fill a list nobody writes. *)
+Theorem c06_alias_or_empty_refuted : forall x f, x <> f ->
+  alias_same (RIteT (RLoc x) (RLoc x) (RLoc f)) (RLoc x) = false /\
+  forall (X : Type) (h : heap X) v, add_then_read (fun _ => false) (RIteT (RLoc x) (RLoc x) (RLoc f)) (RLoc x) h v = h x.
+Proof. exact alias_or_fresh_refuted. Qed.
+
+(** [list(x)], [x[:]], a comprehension, [x.copy()]: a new object in every world. *)
+Theorem c06_alias_copy_refuted : forall x f, x <> f -> alias_same (RLoc f) (RLoc x) = false.
+Proof. exact alias_copy_refuted. Qed.
+
+(** The property with histories: [c06_property] for the round trip of the map as it is, and for every maker of a map and every
+    alias pair the identity that makes later additions part of what is written. *)
+Theorem c06_property_with_histories :
+  forall nums progs (P : parsecfg) (ctbl : list liteclass) classes mans sites (kinds : list string) loops tiers vtbl vinv
+         (V T : Type) (dflt : V) (enc : lentry -> list V -> T) (dec : lentry -> T -> V) makers apairs atbl,
+  table_ok nums progs = true -> pcfg_ok P = true ->
+  codecs_invert V T enc dec ctbl ->
+  (forall k, In k kinds -> kind_ok classes mans sites k = true) ->
+  member_loops_ok loops = true ->
+  vp_ok tiers vtbl vinv = true ->
+  alias_table_ok makers apairs atbl = true ->
+  ((forall fuel fn e text kvs flag_on, env_ok nums e ->
+     run (fun_lookup progs) fuel (fun_lookup progs fn) [] e = Some (text, kvs) -> doc_names_ok kvs = true ->
+     parse_kv P vmf_E flag_on text = POk kvs)
+  /\ (forall x : otree V, wf V ctbl x ->
+        parse_t V T dflt dec ctbl (export_t V T dflt enc ctbl x) = x /\
+        export_t V T dflt enc ctbl (parse_t V T dflt dec ctbl (export_t V T dflt enc ctbl x)) = export_t V T dflt enc ctbl x)
+  /\ (forall k, In k kinds -> exists m p, In m mans /\ im_attr m = k /\ assoc_s (im_preserve m) classes = Some p /\
+        forall d o, (0 <= d)%Z -> id_get p o d = AKeep)
+  /\ (forall l, In l loops -> ml_sorted l = true) /\
+     (forall s1 s2 : list Z, NoDup s1 -> NoDup s2 -> same_set s1 s2 -> write_members true s1 = write_members true s2)
+  /\ (forall t1 r, tiers = t1 :: r -> forall a u v, in_tier t1 u = false -> in_tier t1 v = false ->
+        vp_read tiers vinv (vp_write vtbl a u v) = Some (a, u, v)))
+  /\ (forall fn p, In fn makers -> In p apairs ->
+        exists row, In row atbl /\ ar_fn row = fn /\ ar_left row = fst p /\ ar_right row = snd p /\
+          (forall w, reval w (ar_l row) = reval w (ar_r row)) /\
+          (forall (X : Type) w (h : heap X) x, add_then_read w (ar_l row) (ar_r row) h x = (h (reval w (ar_r row)) ++ [x])%list)).
+Proof.
+  intros nums progs P ctbl classes mans sites kinds loops tiers vtbl vinv V T dflt enc dec makers apairs atbl
+         H1 H2 H3 H4 H5 H6 H7.
+  split.
+  - exact (whole_property nums progs P ctbl classes mans sites kinds loops tiers vtbl vinv V T dflt enc dec H1 H2 H3 H4 H5 H6).
+  - exact (alias_table_meaning makers apairs atbl H7).
+Qed.
